@@ -1,30 +1,33 @@
 #!/venv/bin/python
-"""Writes /verif/MANIFEST.json from the per-property table below."""
+"""Writes /verif/MANIFEST.json from harness/props/c<nn>.meta.json (one per built check).
+A property is claimed only when its harness module, meta file and props/C<nn>.v exist
+and it is not listed in harness/props/UNCLAIMED.json (id -> reason)."""
 import json, os, sys
 sys.path.insert(0, os.path.dirname(os.path.abspath(__file__)))
 VERIF = os.path.dirname(os.path.dirname(os.path.abspath(__file__)))
 
 BASELINE = ("cd /repo && env -u AUTHLIB_JOSERFC_VERIF /venv/bin/python -m pytest -ra -q -p no:cacheprovider "
             "--timeout=900 --continue-on-collection-errors")
-
-# id -> (technique, level text, level note, design ref)
-P = {
- "C19": ("Coq proof of the codec model (round trip, injectivity, strictness, minimal/fixed-width integer forms) + differential correspondence model/implementation",
-         "Machine-checked theorems (props/C19.v, closed under the global context) about a Gallina transcription of urlsafe_b64encode/urlsafe_b64decode (incl. CPython's strict a2b_base64 state machine), int_to_base64/base64_to_int and encode_int/decode_int, for all octet strings and all integers; the model is tied to /repo on every run by evaluating it with vm_compute on the inputs the implementation was run on (exhaustive short strings, every non-alphabet byte at every position, integers around powers of 256) and the property is also evaluated directly on the implementation.",
-         "Trusted: Coq kernel, the hand transcription of CPython binascii (validated by the differential only), the Python harness. The JSON header round trip is checked on the implementation (json module not modelled in C19).",
-         "DESIGN.md 5/C19"),
-}
-
 NOT_BUILT_REASON = "check not built yet (work in progress, see DESIGN.md section 9); no claim is made for this property in this commit"
 
 
 def main():
     props = [json.loads(l) for l in open(os.path.join(VERIF, "properties.jsonl"))]
+    unclaimed = {}
+    up = os.path.join(VERIF, "harness", "props", "UNCLAIMED.json")
+    if os.path.exists(up):
+        unclaimed = json.load(open(up))
     checks, na = [], []
     for p in props:
         pid = p["id"]
-        if pid in P:
-            tech, text, note, ref = P[pid]
+        low = pid.lower()
+        meta_p = os.path.join(VERIF, "harness", "props", low + ".meta.json")
+        have = (os.path.exists(meta_p) and os.path.exists(os.path.join(VERIF, "harness", "props", low + ".py"))
+                and os.path.exists(os.path.join(VERIF, "coq", "props", pid + ".v")))
+        if pid in unclaimed:
+            na.append({"property_id": pid, "reason": unclaimed[pid]})
+        elif have:
+            m = json.load(open(meta_p))
             checks.append({
                 "property_id": pid,
                 "quick_cmd": "./check %s --tier quick" % pid,
@@ -32,30 +35,32 @@ def main():
                 "evidence_file": "/verif/evidence/%s.json" % pid,
                 "replay_cmd_template": "./check %s --replay {path}" % pid,
                 "engine": "coq-proof+correspondence",
-                "level_claimed": {"category": "proof", "text": text, "design_ref": ref},
-                "level_note": note,
-                "technique": tech,
+                "level_claimed": {"category": "proof", "text": m["level_text"], "design_ref": "DESIGN.md 5/%s and section 10" % pid},
+                "level_note": m["level_note"],
+                "technique": m["technique"],
             })
         else:
             na.append({"property_id": pid, "reason": NOT_BUILT_REASON})
+    hooks_p = os.path.join(VERIF, "harness", "HOOKS.json")
+    hooks_src = json.load(open(hooks_p)) if os.path.exists(hooks_p) else []
     m = {
         "version": 1,
         "setup_cmd": "./setup.sh",
         "hooks": {
             "guard": "AUTHLIB_JOSERFC_VERIF",
-            "enable": "checks export AUTHLIB_JOSERFC_VERIF=1 and PYTHONPATH=/repo/src; no source hook exists so far (primitives are intercepted by rebinding module-level names from the harness)",
+            "enable": "checks export AUTHLIB_JOSERFC_VERIF=1 and PYTHONPATH=/repo/src; primitives are intercepted by rebinding module-level names / wrapping singleton methods from the harness process (no source hook is required)",
             "baseline_off_cmd": BASELINE,
-            "source_commits": [],
+            "source_commits": hooks_src,
             "add_only": True,
         },
         "engines": [{
             "name": "coq-proof+correspondence", "path": "/verif/check",
             "serves_properties": [c["property_id"] for c in checks],
-            "kind_free_text": "Coq 8.16.1 theorems over a hand-written Gallina model (coq/model, coq/proofs, coq/props) plus tables regenerated from /repo (coq/gen/Tables.v) and a differential correspondence run (model evaluated by vm_compute on the inputs the implementation ran on)",
+            "kind_free_text": "Coq 8.16.1 theorems over a hand-written Gallina model (coq/model, coq/proofs, coq/props) plus tables regenerated from /repo (coq/gen/Tables*.v) and a differential correspondence run (model evaluated by vm_compute on the inputs the implementation ran on), with a directed search on the implementation for a failing input",
         }],
         "checks": checks,
         "not_applicable": na,
-        "notes": "All checks: ./check <ID> --tier quick|thorough. VERIF_SEED seeds the PRNG. See DESIGN.md and TRUSTED_BASE.md.",
+        "notes": "All checks: ./check <ID> --tier quick|thorough. VERIF_SEED seeds the PRNG. See DESIGN.md (sections 4, 10) for the trusted base and the seeded-change results.",
     }
     with open(os.path.join(VERIF, "MANIFEST.json"), "w") as f:
         json.dump(m, f, indent=1)
